@@ -44,6 +44,47 @@ def intval(v):
     return None
 
 
+INSTALLING_SPECS = {"all_elems", "dict_empty"}
+
+
+def spec_dict_empty(eng, d):
+    """dict_empty(d): d has no entries.  In assume position an open symbolic dict becomes the closed empty dict."""
+    d = eng.force(d)
+    m = eng.state.dicts[d.did]
+    if not m.open and not getattr(m, "sym_entries", None):
+        ps = [p for p, _ in m.entries.values()]
+        return VBool(z3.Not(z3.Or(ps)) if ps else z3.BoolVal(True))
+    if getattr(eng, "assuming", False):
+        if m.entries or getattr(m, "sym_entries", None):
+            ps = [p for p, _ in m.entries.values()]
+            eng.assume(z3.Not(z3.Or(ps)) if ps else z3.BoolVal(True))
+        eng.state.dicts[d.did] = DictModel({}, False, m.make_val, m.tag)
+        return VBool(True)
+    return VBool(False)
+
+
+def spec_all_elems(eng, lst, predname):
+    """all_elems(xs, 'pred'): every element of xs satisfies the registered element predicate.
+    In assume position it installs the fact on the list; in proof position it is true only if the
+    fact is already tracked (maintained by obligations at every append / store) or the spine is concrete."""
+    name = strval(predname)
+    pred = eng.reg.elem_preds[name]
+    lst = eng.force(lst)
+    m = eng.state.lists[lst.lid]
+    if m.items is not None:
+        ts = [pred(eng, eng.force(x)) for x in m.items]
+        return VBool(z3.And(ts) if ts else z3.BoolVal(True))
+    have = any(getattr(f, "pred_name", None) == name for f in m.elem_facts)
+    if have:
+        return VBool(True)
+    if getattr(eng, "assuming", False):
+        f = lambda e, x, _p=pred: _p(e, e.force(x))
+        f.pred_name = name
+        m.elem_facts.append(f)
+        return VBool(True)
+    return VBool(False)
+
+
 # ===================================================================== dispatch
 def call_dispatch(eng, node, fr):
     # spec-only forms
@@ -71,6 +112,12 @@ def call_dispatch(eng, node, fr):
         if nm == "implies":
             a = eng.truth(eng.eval(node.args[0], fr))
             if is_true(z3.Not(a)):
+                return VBool(True)
+            if getattr(eng, "assuming", False) and any(isinstance(n, ast.Call) and isinstance(n.func, ast.Name) and n.func.id in INSTALLING_SPECS
+                                                       for n in ast.walk(node.args[1])):
+                # the consequent refines the shape of a container: only sound where the antecedent holds -> fork
+                if eng.branch(a):
+                    return VBool(eng.truth(eng.eval(node.args[1], fr)))
                 return VBool(True)
             # evaluate consequent under the assumption (its partial operations may need it)
             mark = len(eng.state.pc)
@@ -122,6 +169,9 @@ def call_value(eng, f, args, kwargs, node, fr):
             qual = f.name
             eng.emit("call", qual=qual, args=args, kwargs=kwargs, node=node, frame=fr)
             con = eng.reg.contract(qual)
+            if con is not None and not con.inline and "inline-on-constants" in con.props and all_concrete(eng, args[1:] if k == "method" else args):
+                eng.emit("inline_concrete", qual=qual, node=node)
+                return eng.call_function_node(qual.split(".")[0], qual, f.node, args, dict(kwargs), node, fr)
             if con is not None and not con.inline and qual != eng.cur_func_qual():
                 from .contract import apply_contract
                 return apply_contract(eng, con, f.node, args, kwargs, node, fr)
@@ -163,6 +213,25 @@ def call_value(eng, f, args, kwargs, node, fr):
             return call_env(eng, spec, f, f.tag, args, kwargs, node, fr)
         raise OutOfSubset("call of opaque %s" % f.tag, node)
     raise OutOfSubset("call of %r" % (f,), node)
+
+
+def all_concrete(eng, args):
+    for a in args:
+        a = eng.force(a)
+        if isinstance(a, VStr):
+            if strval(a) is None:
+                return False
+        elif isinstance(a, VInt):
+            if intval(a) is None:
+                return False
+        elif isinstance(a, (VNone,)):
+            continue
+        elif isinstance(a, VBool):
+            if not (is_true(a.t) or is_true(z3.Not(a.t))):
+                return False
+        else:
+            return False
+    return True
 
 
 def call_env(eng, spec, recv, name, args, kwargs, node, fr):
@@ -659,6 +728,12 @@ def str_method(eng, s, attr, args, kwargs, node, fr):
         if s.bytes:
             raise RaiseSig(VExc("AttributeError"))
         if enc in ("latin-1", "latin1", "iso-8859-1"):
+            sv = strval(s)
+            if sv is not None:
+                try:
+                    return VStr(sv.encode("latin-1"), True)
+                except UnicodeEncodeError:
+                    raise RaiseSig(VExc("UnicodeEncodeError"))
             if not getattr(s, "l1", False):
                 ok = z3.Function("py_is_latin1", z3.StringSort(), z3.BoolSort())(s.t)
                 eng.builtin_pre("UnicodeEncodeError", ok, node)
@@ -861,7 +936,7 @@ def list_method(eng, lv, attr, args, kwargs, node, fr):
             m.items.append(args[0])
         else:
             for k, fact in enumerate(m.elem_facts):
-                eng.oblige("%s/list-elem-fact#%d" % (eng.cur_func, k), fact(eng, args[0]), kind="elem-fact")
+                eng.oblige("%s/list-elem-fact:%s" % (eng.cur_func, getattr(fact, "pred_name", k)), fact(eng, args[0]), kind="elem-fact")
             old_len = m.length
             m.length = simp(m.length + 1)
             m.__dict__.pop("cache", None)
@@ -1018,11 +1093,29 @@ def regex_method(eng, recv, attr, args, kwargs, node, fr):
         arg = args[0]
         if not isinstance(arg, VStr):
             raise OutOfSubset("regex on %r" % (arg,), node)
+        sv = strval(arg)
+        if sv is not None:
+            # constant argument: run the REAL compiled pattern of the running module
+            modname, pname = name.split(".")[0], name.split(".")[-1]
+            pat = getattr(eng.repo.module(modname), pname)
+            subject = sv.encode("latin-1") if isinstance(pat.pattern, bytes) else sv
+            m = getattr(pat, attr)(subject)
+            if m is None:
+                return NONE
+            mo = VOpaque("match:%s:%s" % (short, attr), truth=z3.BoolVal(True))
+            mo.arg, mo.pattern, mo.method = arg, short, attr
+            mo.end = z3.IntVal(m.end())
+            mo.groups = {}
+            for gname, gi in pat.groupindex.items():
+                g = m.group(gi)
+                mo.groups[gname] = NONE if g is None else VStr(g, arg.bytes)
+                mo.groups[gi] = mo.groups[gname]
+            return mo
         matched = regex_fn(short, attr)(arg.t)
         for lemma in eng.reg.regex_lemmas.get((short, attr), []):
             lemma(eng, arg, matched)
         eng.emit("regex_gate", pattern=short, method=attr, arg=arg, matched=matched, node=node)
-        mo = VOpaque("match:%s:%s" % (short, attr))
+        mo = VOpaque("match:%s:%s" % (short, attr), truth=z3.BoolVal(True))
         mo.arg = arg
         mo.pattern = short
         mo.method = attr
@@ -1080,7 +1173,41 @@ def ext_fresh_str(eng, args, kwargs, node, fr):
     return eng.fresh_str("ext", False)
 
 
+def ext_urlsplit(eng, args, kwargs, node, fr):
+    # urllib.parse.urlsplit(bytes): five bytes components; raises ValueError (UnicodeError is a subclass) on some inputs
+    a = eng.force(args[0])
+    sv = strval(a) if isinstance(a, VStr) else None
+    if sv is not None and a.bytes:
+        import urllib.parse
+        try:
+            parts = urllib.parse.urlsplit(sv.encode("latin-1"))
+        except UnicodeError:
+            raise RaiseSig(VExc("UnicodeDecodeError"))
+        except ValueError:
+            raise RaiseSig(VExc("ValueError"))
+        return VTuple([VStr(p, True) for p in parts])
+    c = eng.choose(3, "urlsplit")
+    if c == 1:
+        raise RaiseSig(VExc("UnicodeDecodeError"))
+    if c == 2:
+        raise RaiseSig(VExc("ValueError"))
+    return VTuple([eng.fresh_str("url_%s" % n, True) for n in ("scheme", "netloc", "path", "query", "fragment")])
+
+
+def ext_unquote_to_bytes(eng, args, kwargs, node, fr):
+    a = eng.force(args[0])
+    sv = strval(a)
+    if sv is not None:
+        import urllib.parse
+        return VStr(urllib.parse.unquote_to_bytes(sv.encode("latin-1")), True)
+    r = VStr(F_UNQUOTE(a.t), True)
+    eng.assume(z3.Length(r.t) <= z3.Length(a.t))
+    return r
+
+
 EXTERNALS = {
+    "urllib.parse.urlsplit": ext_urlsplit,
+    "urllib.parse.unquote_to_bytes": ext_unquote_to_bytes,
     "time.time": ext_time,
     "warnings.warn": ext_noop,
     "traceback.format_exc": ext_fresh_str,
